@@ -14,13 +14,13 @@ MULTIBYTE = ["é", "́", "€", "\U0001F980", "\u00a0", "\u3000"]
 BOUNDS = {"quick": int(os.environ.get("VERIF_L_QUICK_N", "5")), "thorough": int(os.environ.get("VERIF_L_THOROUGH_N", "6"))}
 # second pass: longer literals over the reduced alphabet of the characters the grammar gives a meaning to
 DEEP_ALPHABET = "{}:.*$01 a?x"
-DEEP_BOUNDS = {"quick": int(os.environ.get("VERIF_L_QUICK_DEEP", "7")), "thorough": int(os.environ.get("VERIF_L_THOROUGH_DEEP", "8"))}
+DEEP_BOUNDS = {"quick": int(os.environ.get("VERIF_L_QUICK_DEEP", "6")), "thorough": int(os.environ.get("VERIF_L_THOROUGH_DEEP", "8"))}
 
 # third pass: still longer literals, constrained to a *structured* language - a DFA over (text | placeholder)* with text = ' ',
 # placeholder = `{` [0|1|a] [`:` [#] [1|1$|a$] [.1|.1$|.a$|.*] [?|x|x?]] `}` - i.e. the well-formed literals that exercise argument
 # resolution (explicit / implicit / named arguments, `$` references, `.*`), whose interplay needs two or three placeholders.
 # The bytes stay symbolic; the DFA is a z3 constraint over them (state variables per position).
-STRUCT_BOUNDS = {"quick": (8, int(os.environ.get("VERIF_L_QUICK_STRUCT", "9"))), "thorough": (9, int(os.environ.get("VERIF_L_THOROUGH_STRUCT", "11")))}
+STRUCT_BOUNDS = {"quick": (7, int(os.environ.get("VERIF_L_QUICK_STRUCT", "9"))), "thorough": (9, int(os.environ.get("VERIF_L_THOROUGH_STRUCT", "11")))}
 
 
 def struct_dfa():
